@@ -105,7 +105,7 @@ func trendInds() []Ind {
 			Build: func(c Config) (func([]C) []C, int) {
 				a := trend.NewApo[float64]()
 				a.FastPeriod, a.SlowPeriod = c.P[0], c.P[1]
-				return func(in []C) []C { return o1(a.Compute(in[0])) }, c.P[1] - 1
+				return func(in []C) []C { return o1(a.Compute(in[0])) }, declared(a, c.P[1] - 1)
 			},
 			Doc: "Fast = Ema(values, fastPeriod); Slow = Ema(values, slowPeriod); APO = Fast - Slow. No IdlePeriod method: warm-up implied = slow-1.",
 			Ref: func(c Config, in In) []ref.S {
@@ -121,7 +121,7 @@ func trendInds() []Ind {
 			Build: func(c Config) (func([]C) []C, int) {
 				a := trend.NewAroon[float64]()
 				a.Period = c.P[0]
-				return func(in []C) []C { return o2(a.Compute(in[0], in[1])) }, c.P[0] - 1
+				return func(in []C) []C { return o2(a.Compute(in[0], in[1])) }, declared(a, c.P[0] - 1)
 			},
 			Doc: "Aroon Up = ((25 - Period Since Last 25 Period High) / 25) * 100; Down likewise with the low. Warm-up implied = period-1. Positions whose window attains the extreme more than once are not claimed.",
 			Ref: func(c Config, in In) []ref.S {
@@ -142,7 +142,7 @@ func trendInds() []Ind {
 			Name: "Bop", Inputs: []string{Open, High, Low, Close}, Outs: []string{"bop"},
 			Build: func(c Config) (func([]C) []C, int) {
 				a := trend.NewBop[float64]()
-				return func(in []C) []C { return o1(a.Compute(in[0], in[1], in[2], in[3])) }, 0
+				return func(in []C) []C { return o1(a.Compute(in[0], in[1], in[2], in[3])) }, declared(a, 0)
 			},
 			Doc: "BOP = (Closing - Opening) / (High - Low)",
 			Ref: func(c Config, in In) []ref.S {
@@ -474,7 +474,7 @@ func trendInds() []Ind {
 			Name: "TypicalPrice", Inputs: []string{High, Low, Close}, Outs: []string{"tp"},
 			Build: func(c Config) (func([]C) []C, int) {
 				a := trend.NewTypicalPrice[float64]()
-				return func(in []C) []C { return o1(a.Compute(in[0], in[1], in[2])) }, 0
+				return func(in []C) []C { return o1(a.Compute(in[0], in[1], in[2])) }, declared(a, 0)
 			},
 			Doc: "Typical Price = (High + Low + Closing) / 3", Ref: func(c Config, in In) []ref.S { return []ref.S{typical(in)} },
 			PriceDeg: []int{1}, VolDeg: []int{0}, Window: true,
